@@ -49,10 +49,19 @@ func VerifC15_History() {
 	fsys.mtime["pages/wrap.vuego"] = 2
 	long := NewFS(fsys)
 	// the request data differs from render to render; the files decide the rest
-	vis := zzBool("vis")
+	nodata := zzBool("nodata") // the engine is used as it is, without request data
+	vis := false
+	if !nodata {
+		vis = zzBool("vis")
+	}
 	render := func(t Template) (string, bool) {
 		w := &zzWriter{limit: 1 << 20}
-		err := t.New().Fill(map[string]any{"vis": vis, "msg": "M"}).RenderFile(contextBackground(), w, "pages/page.vuego")
+		var err error
+		if nodata {
+			err = t.Load("pages/page.vuego").Render(contextBackground(), w)
+		} else {
+			err = t.New().Fill(map[string]any{"vis": vis, "msg": "M"}).RenderFile(contextBackground(), w, "pages/page.vuego")
+		}
 		return string(w.got), err != nil
 	}
 	out0, failed0 := render(long) // warm the cache
@@ -126,7 +135,9 @@ func VerifC15_History() {
 		case 4: // edit the component (not cached)
 			fsys.files["c.vuego"] = zzC15Comp(version)
 		}
-		vis = zzBool("vis")
+		if !nodata {
+			vis = zzBool("vis")
+		}
 		got, gotFailed := render(long)
 		want, wantFailed := render(NewFS(fsys))
 		if !wantFailed {
